@@ -196,19 +196,19 @@ def names_of(case):
 
 
 def id_column(case):
-    return "Center" if case.get("codec") == "gdc" else "Id"
+    return "Hugo_Symbol" if case.get("codec") == "gdc" else "Id"
 
 
 def maf_record(case, k, i, scheme):
     from maflib.record import MafRecord
     from maflib.validation import ValidationStringency
     if case["codec"] == "gdc":
-        # a line of the built-in typed scheme gdc-1.0.0 (34 columns); the identity travels in Center
+        # a line of the built-in typed scheme gdc-1.0.0 (34 columns); the identity travels in Hugo_Symbol
         import so_common
         tb, nb, ch, st, en = case["keys"][k]
         d = dict(so_common.GDC_TEMPLATE)
         d.update({"Tumor_Sample_Barcode": tb, "Matched_Norm_Sample_Barcode": nb, "Chromosome": ch,
-                  "Start_Position": str(st), "End_Position": str(en), "Center": "r%d" % i})
+                  "Start_Position": str(st), "End_Position": str(en), "Hugo_Symbol": "r%d" % i})
         line = "\t".join(d.get(n, "") for n in so_common.GDC_NAMES)
         return MafRecord.from_line(line, scheme=scheme, validation_stringency=ValidationStringency.Strict)
     line = "\t".join(maf_fields(case, k, i))
@@ -491,7 +491,7 @@ def corpus():
         # just beyond the capacity (seeded change: `is` for `==` in the stash-full test)
         {"stream": "corpus", "flavour": "t/int", "cap": 257, "always": True, "off": 0,
          "ops": _ops([[i % 3, i, 0] for i in range(259)], False, []), "alt": {"cap": 300, "always": False, "seed": 5}},
-        {"stream": "corpus", "flavour": "t/int", "cap": 10000, "always": True, "off": 0,
+        {"stream": "corpus", "flavour": "t/int", "cap": 10000, "always": True, "off": 0, "big": True,
          "ops": _ops([[i % 2, i, 0] for i in range(10001)], False, []), "alt": {"cap": 10000, "always": False, "seed": 5}},
         # a record whose text is empty (zero bytes in the spill file) in the middle of a chunk
         {"stream": "corpus", "flavour": "praw", "cap": 3, "always": True, "off": 0,
@@ -556,12 +556,27 @@ def _model_item(case, ranks, o):
     return [0, k, o[2], bad]
 
 
+def _is_big(case):
+    return bool(case.get("big")) or sum(1 for o in case.get("ops", []) if o[0] == "add") > 700
+
+
+def skip_compare(case):
+    """the extracted model sorts by repeated selection: thousands of records are left to the oracle"""
+    if case["flavour"] in ("sessions", "interleaved"):
+        return any(skip_compare(c) for c in case["sessions"])
+    return _is_big(case)
+
+
 def to_model(case):
     if case["flavour"] in ("sessions", "interleaved"):
         return [5] + [to_model(c) for c in case["sessions"]]
+    if _is_big(case):
+        return [0, 1, 1 if case["always"] else 0, []]
     ranks = maf_rank_table(case) if case["flavour"] == "maf" else None
     ops = [(_model_item(case, ranks, o) if o[0] == "add" else [1]) for o in case["ops"]]
-    return [0, case["cap"], 1 if case["always"] else 0, ops]
+    # a capacity the history never reaches behaves like any other such capacity: keep the model's numbers small
+    n = sum(1 for o in case["ops"] if o[0] == "add")
+    return [0, min(case["cap"], n + 1), 1 if case["always"] else 0, ops]
 
 
 def _canon_items(items):
